@@ -743,27 +743,42 @@ fn plain(v: &View) -> PlainView {
 /// working-copy commit is immutable). Returns the stripped view and whether it stripped.
 fn strip_fresh_wc_child(ins: &Inspect, v: &View, w: &str) -> (PlainView, bool) {
     let mut pv = plain(v);
-    let Some(c) = pv.wcs.get(w).cloned() else { return (pv, false) };
-    let Some(cd) = ins.commits.get(&c) else { return (pv, false) };
+    let stripped = strip_in_place(ins, v, &mut pv, w);
+    (pv, stripped)
+}
+
+fn strip_in_place(ins: &Inspect, v: &View, pv: &mut PlainView, w: &str) -> bool {
+    let Some(c) = pv.wcs.get(w).cloned() else { return false };
+    let Some(cd) = ins.commits.get(&c) else { return false };
     if cd.parents.len() != 1 || !cd.desc.is_empty() || !pv.heads.contains(&c) {
-        return (pv, false);
+        return false;
     }
     let p = cd.parents[0].clone();
-    let Some(pd) = ins.commits.get(&p) else { return (pv, false) };
+    let Some(pd) = ins.commits.get(&p) else { return false };
     if pd.tree_ids != cd.tree_ids || !ins.immutable_in(v).contains(&p) {
-        return (pv, false);
+        return false;
     }
     let referenced = v.local_bookmarks.values().chain(v.local_tags.values()).any(|t| t.added_ids().any(|id| *id == c))
         || pv.wcs.iter().any(|(k, id)| k != w && *id == c);
     if referenced {
-        return (pv, false);
+        return false;
     }
     pv.heads.remove(&c);
     if !ins.ancestors(pv.heads.iter().cloned()).contains(&p) {
         pv.heads.insert(p.clone());
     }
     pv.wcs.insert(w.to_string(), p);
-    (pv, true)
+    true
+}
+
+/// The same identification applied to every workspace (used only to classify a difference).
+fn strip_all(ins: &Inspect, v: &View) -> PlainView {
+    let mut pv = plain(v);
+    let names: Vec<String> = pv.wcs.keys().cloned().collect();
+    for w in names {
+        strip_in_place(ins, v, &mut pv, &w);
+    }
+    pv
 }
 
 fn short(c: &CommitId) -> String {
@@ -792,7 +807,16 @@ fn compare_views(ins: &Inspect, new: &View, exp: &View, w: &str) -> (Option<(Str
     if (a || b) && sn == se {
         return (None, true);
     }
-    let field = if pn.wcs != pe.wcs { "wc" } else { "heads" };
+    // narrow class: the views differ only by an empty working-copy commit of ANOTHER workspace on
+    // top of an immutable commit (not covered by the statement's permitted difference, which is
+    // about the commit jj creates for the restored working copy of the acting workspace)
+    let field = if strip_all(ins, new) == strip_all(ins, exp) {
+        "other-workspace-empty-wc-child-of-immutable-commit-differs"
+    } else if pn.wcs != pe.wcs {
+        "wc"
+    } else {
+        "heads"
+    };
     let fmt = |p: &PlainView| {
         format!(
             "heads {:?} wc {:?}",
@@ -1209,7 +1233,7 @@ fn main() {
     let wall_cap = std::env::var("VERIF_WALL_CAP_S")
         .ok()
         .and_then(|v| v.parse::<f64>().ok())
-        .unwrap_or(ctx.pick(40.0, 1500.0));
+        .unwrap_or(ctx.pick(35.0, 1500.0));
     let capped = AtomicBool::new(false);
     let skipped = AtomicU64::new(0);
     let start = Instant::now();
@@ -1243,6 +1267,8 @@ fn main() {
     };
     let prep_commands = stats.commands.load(Ordering::Relaxed);
 
+    // the wall-clock budget of the search starts when the roots are prepared
+    let start = Instant::now();
     let step = |h: &[Act]| -> Option<bfs::StepResult<Act>> {
         if h.is_empty() {
             return Some(bfs::StepResult { key: "root".into(), actions: (0..phases.len()).map(Act::Init).collect() });
